@@ -152,7 +152,8 @@ def run(ctx, chk, tier):
                 target = inner.args[1]
                 inner = inner.args[0]
                 r = roles_of(inner, env)
-                want_shape = App("tupcat", (add_shapes(), Tup([Const(2)])))
+                from ..terms import Star
+                want_shape = Tup([Star(add_shapes()), Const(2)])
                 tgt_ok = target.key == want_shape.key
                 if r is None:
                     chk.unknown("R13.7", "axis roles of %s not inferable" % show(inner, 160))
